@@ -694,7 +694,17 @@ evhttp_make_header(struct evhttp_connection *evcon, struct evhttp_request *req)
 	}
 	evbuffer_add(output, "\r\n", 2);
 
-	if (evhttp_have_expect(req, 0) != CONTINUE &&
+	if (req->kind == EVHTTP_RESPONSE &&
+	    (req->type == EVHTTP_REQ_HEAD ||
+	     req->response_code == HTTP_NOCONTENT ||
+	     req->response_code == HTTP_NOTMODIFIED ||
+	     (req->response_code >= 100 && req->response_code < 200))) {
+		/* such a response ends after the header section: whatever the
+		 * caller (or evhttp_send_error) put into the buffer stays off
+		 * the wire */
+		evbuffer_drain(req->output_buffer,
+		    evbuffer_get_length(req->output_buffer));
+	} else if (evhttp_have_expect(req, 0) != CONTINUE &&
 		evbuffer_get_length(req->output_buffer)) {
 		/*
 		 * For a request, we add the POST data, for a reply, this
